@@ -220,7 +220,7 @@ func Positions(quick bool) Family {
 
 // JSONEscapes: patterns with characters that JSON / HTML-safe JSON escapes (C16).
 func JSONEscapes(quick bool) Family {
-	pats := []string{`"`, `\\`, `\\"`, `<`, `&`, `>`, `é`, `\x{1F600}`, `[<&>]+`, `"[^"]*"`, `\"`, `\x26`, " ", `'`, `\/`}
+	pats := []string{`"`, `\\`, `\\"`, `<`, `&`, `>`, `é`, `\x{1F600}`, `[😀-🙏]+`, `𝐀+|😀`, `[<&>]+`, `"[^"]*"`, `\"`, `\x26`, " ", `'`, `\/`}
 	var defs []m.Def
 	for i, p := range pats {
 		for j, q := range pats {
@@ -228,6 +228,10 @@ func JSONEscapes(quick bool) Family {
 				continue
 			}
 			defs = append(defs, m.Def{"Root": {r("P", p), push("Q", q, "S"), r("Any", `.`)}, "S": {pop("End", p), r("In", `(?s:.)`)}})
+			if i < 3 {
+				// non-ASCII (also astral) rule and state names
+				defs = append(defs, m.Def{"Root": {r("P😀", p), push("Qé", q, "S𝐀"), r("Any", `.`)}, "S𝐀": {pop("End", p), r("In", `(?s:.)`)}})
+			}
 		}
 	}
 	return Family{Name: "json-escapes", Defs: defs, Alphabet: []string{`"`, `\`, "<", "&", "é", "😀", "a", " "}, MaxLen: lenFor(quick, 3, 4)}
